@@ -71,11 +71,17 @@ class Tracer:
             self._saved[meth] = orig
 
             def wrapper(self_pf, x, _orig=orig, _kind=kind, _norm=norm):
-                try:
-                    xu = self_pf._unnormalize_vect(x) if _norm else x
-                    key = tuple(float(t) for t in np.asarray(xu).real)
-                except Exception:  # noqa: BLE001
-                    key = None
+                key = None
+                for _attempt in (0, 1):
+                    # (second attempt: a wrapped optimiser may call back with a stale Python error indicator set —
+                    # seen with the NLopt binding after a termination criterion raised in the previous callback —
+                    # which the first C call that checks it consumes and re-raises)
+                    try:
+                        xu = self_pf._unnormalize_vect(x) if _norm else x
+                        key = tuple(float(t) for t in np.asarray(xu).real)
+                        break
+                    except Exception:  # noqa: BLE001
+                        key = None
 
                 def snapshot(ev):
                     ev["cur"] = self_pf._evaluation_counter.current
@@ -527,6 +533,16 @@ def run(ctx) -> Result:
                 continue
             res.count("algo:" + algo)
             check_runs(res, runs, "doe" if is_doe else "opt", batch)
+    # repeated KKT-stopped NLopt runs in one process: the NLopt binding reports a termination criterion raised from a
+    # function call as a forced stop only now and then (history dependent), see known_findings fixed 187eb68
+    for algo in ("NLOPT_BFGS", "NLOPT_SLSQP", "NLOPT_MMA"):
+        if algo not in opt_algos:
+            continue
+        for _ in range(12 if ctx.thorough else 6):
+            runs = real_algo_runs(algo, "none", 10, False, False, kkt=True)
+            if runs is not None:
+                res.count("nlopt-kkt-repeat:" + algo)
+                check_runs(res, runs, "opt", batch)
     termination_family_stream(res, ctx)
     res.extra["algorithms_skipped_unsuited_or_unconfigurable"] = sorted(set(skipped))[:60]
     compare_with_model(res, batch)
